@@ -179,9 +179,10 @@ theorem hit_var {p : Prog} (hwf : WF p = true) (x fuel ctx : Nat) (lim : Option 
         · simp [h2, hb]
 
 /-- **soundness of the walk**: under `Covered`, every landing denotes the expected variable -/
-theorem gotoFrom_sound {p : Prog} (hwf : WF p = true) (x : Nat) :
+theorem gotoFromSel_sound {sel : List Nat → List Nat} (hsel : IsSel sel)
+    {p : Prog} (hwf : WF p = true) (x : Nat) :
     ∀ fuel ctx lim g, ctx < fuel → Covered p x fuel ctx lim g = true →
-      ∀ d ∈ gotoFrom p x fuel ctx lim,
+      ∀ d ∈ gotoFromSel sel p x fuel ctx lim,
         varOf p d = if g then 0 else resolveFree p x fuel ctx := by
   intro fuel
   induction fuel with
@@ -189,14 +190,25 @@ theorem gotoFrom_sound {p : Prog} (hwf : WF p = true) (x : Nat) :
   | succ n ih =>
     intro ctx lim g hlt hcov d hd
     have hk0 := wf_kind0 hwf
-    unfold gotoFrom at hd
+    have selEmpty : ∀ {l : List Nat}, l.isEmpty = true → sel l = [] := by
+      intro l hl
+      have : l = [] := by simpa using hl
+      subst this
+      cases hs : sel [] with
+      | nil => rfl
+      | cons a t => have := hsel.sub (l := []) (d := a) (by rw [hs]; exact List.mem_cons_self); simp at this
+    have selNe : ∀ {l : List Nat}, ¬ l.isEmpty = true → sel l ≠ [] := by
+      intro l hl h
+      apply hl
+      simp [hsel.nil h]
+    unfold gotoFromSel at hd
     unfold Covered at hcov
     cases hk : p.kind ctx with
     | module =>
       simp only [hk] at hd
       have hv : varOf p d = 0 := by
         rcases List.mem_append.mp hd with h | h
-        · obtain ⟨od, hod, hn, hsc, hdef, -⟩ := (mem_defsIn p 0 x lim d).mp (mem_lastOf h)
+        · obtain ⟨od, hod, hn, hsc, hdef, -⟩ := (mem_defsIn p 0 x lim d).mp (hsel.sub h)
           rw [varOf_of_def hod hdef, hsc]
           simp [ownerOfBinding, hk0]
         · obtain ⟨od, hod, hn, hrole⟩ := (mem_globalDecls p x d).mp h
@@ -208,7 +220,7 @@ theorem gotoFrom_sound {p : Prog} (hwf : WF p = true) (x : Nat) :
     | klass =>
       simp only [hk, Bool.and_eq_true] at hd hcov
       have hpl := wf_parent_lt hwf ctx (by rw [hk]; decide)
-      have hempty := lastOf_isEmpty.mpr hcov.1
+      have hempty := selEmpty hcov.1
       rw [hempty] at hd
       simp only at hd
       have := ih (p.parent ctx) lim g (by omega) hcov.2 d hd
@@ -226,7 +238,7 @@ theorem gotoFrom_sound {p : Prog} (hwf : WF p = true) (x : Nat) :
       have hpl := wf_parent_lt hwf ctx hkm
       by_cases he : (defsIn p ctx x lim).isEmpty = true
       · simp only [he, if_true] at hcov
-        rw [lastOf_isEmpty.mpr he] at hd
+        rw [selEmpty he] at hd
         simp only at hd
         split at hcov
         · cases hcov
@@ -259,11 +271,10 @@ theorem gotoFrom_sound {p : Prog} (hwf : WF p = true) (x : Nat) :
                   exact hex ⟨h1', h2'⟩
                 simp [h2, h3]
       · simp only [he, Bool.false_eq_true, if_false] at hcov
-        have hne : lastOf (defsIn p ctx x lim) ≠ [] := by
-          intro h; exact he (lastOf_isEmpty.mp h)
+        have hne : sel (defsIn p ctx x lim) ≠ [] := selNe he
         split at hd
         · contradiction
-        · exact hit_var hwf x n ctx lim g hkm hkc hlt hcov d (mem_lastOf hd)
+        · exact hit_var hwf x n ctx lim g hkm hkc hlt hcov d (hsel.sub hd)
     | lambda =>
       simp only [hk] at hd hcov
       have hkm : p.kind ctx ≠ .module := by rw [hk]; decide
@@ -271,7 +282,7 @@ theorem gotoFrom_sound {p : Prog} (hwf : WF p = true) (x : Nat) :
       have hpl := wf_parent_lt hwf ctx hkm
       by_cases he : (defsIn p ctx x lim).isEmpty = true
       · simp only [he, if_true] at hcov
-        rw [lastOf_isEmpty.mpr he] at hd
+        rw [selEmpty he] at hd
         simp only at hd
         split at hcov
         · cases hcov
@@ -304,11 +315,10 @@ theorem gotoFrom_sound {p : Prog} (hwf : WF p = true) (x : Nat) :
                   exact hex ⟨h1', h2'⟩
                 simp [h2, h3]
       · simp only [he, Bool.false_eq_true, if_false] at hcov
-        have hne : lastOf (defsIn p ctx x lim) ≠ [] := by
-          intro h; exact he (lastOf_isEmpty.mp h)
+        have hne : sel (defsIn p ctx x lim) ≠ [] := selNe he
         split at hd
         · contradiction
-        · exact hit_var hwf x n ctx lim g hkm hkc hlt hcov d (mem_lastOf hd)
+        · exact hit_var hwf x n ctx lim g hkm hkc hlt hcov d (hsel.sub hd)
     | comp =>
       simp only [hk] at hd hcov
       have hkm : p.kind ctx ≠ .module := by rw [hk]; decide
@@ -316,7 +326,7 @@ theorem gotoFrom_sound {p : Prog} (hwf : WF p = true) (x : Nat) :
       have hpl := wf_parent_lt hwf ctx hkm
       by_cases he : (defsIn p ctx x none).isEmpty = true
       · simp only [he, if_true] at hcov
-        rw [lastOf_isEmpty.mpr he] at hd
+        rw [selEmpty he] at hd
         simp only at hd
         split at hcov
         · cases hcov
@@ -343,10 +353,17 @@ theorem gotoFrom_sound {p : Prog} (hwf : WF p = true) (x : Nat) :
                   exact hex ⟨h1', h2'⟩
                 simp [h2, h3]
       · simp only [he, Bool.false_eq_true, if_false] at hcov
-        have hne : lastOf (defsIn p ctx x none) ≠ [] := by
-          intro h; exact he (lastOf_isEmpty.mp h)
+        have hne : sel (defsIn p ctx x none) ≠ [] := selNe he
         split at hd
         · contradiction
-        · exact hit_var hwf x n ctx none g hkm hkc hlt hcov d (mem_lastOf hd)
+        · exact hit_var hwf x n ctx none g hkm hkc hlt hcov d (hsel.sub hd)
 
+end JediModel.Scopes
+
+namespace JediModel.Scopes
+theorem gotoFrom_sound {p : Prog} (hwf : WF p = true) (x : Nat) :
+    ∀ fuel ctx lim g, ctx < fuel → Covered p x fuel ctx lim g = true →
+      ∀ d ∈ gotoFrom p x fuel ctx lim,
+        varOf p d = if g then 0 else resolveFree p x fuel ctx :=
+  gotoFromSel_sound isSel_lastOf hwf x
 end JediModel.Scopes
